@@ -63,6 +63,10 @@ pub struct Scenario {
     /// of the standard include directory that holds them
     #[serde(default)]
     pub config_files: BTreeMap<String, String>,
+    /// outputs an earlier run left that are (nearly) right: path -> text of a HEX file that
+    /// decodes to the image, lacks its end-of-file record, or stops at a record boundary
+    #[serde(default)]
+    pub stale_text: BTreeMap<String, String>,
 }
 fn xdg_default() -> String {
     "xdg".into()
@@ -224,6 +228,16 @@ fn materialise(sc: &Scenario, root: &Path) -> Result<(), String> {
             std::fs::create_dir_all(d).map_err(|e| e.to_string())?;
         }
         std::fs::write(&fp, stale_bytes(*n)).map_err(|e| format!("write {}: {}", p, e))?;
+    }
+    for (p, t) in &sc.stale_text {
+        let fp = root.join(pb(p));
+        if let Some(d) = fp.parent() {
+            std::fs::create_dir_all(d).map_err(|e| e.to_string())?;
+        }
+        if fp.is_dir() {
+            continue;
+        }
+        std::fs::write(&fp, t).map_err(|e| format!("write {}: {}", p, e))?;
     }
     Ok(())
 }
@@ -859,6 +873,7 @@ fn map_names(sc: &Scenario, f: &dyn Fn(&str) -> String) -> Scenario {
     let mut n = sc.clone();
     n.files = sc.files.iter().map(|(k, v)| (f(k), v.clone())).collect();
     n.stale = sc.stale.iter().map(|(k, v)| (f(k), *v)).collect();
+    n.stale_text = sc.stale_text.iter().map(|(k, v)| (f(k), v.clone())).collect();
     n.dirs = sc.dirs.iter().map(|d| f(d)).collect();
     n.cwd = f(&sc.cwd);
     n.argv = sc
@@ -942,6 +957,7 @@ pub fn scenario_shape(tier: &str, base_seed: u64, g: u64) -> Scenario {
         envmode: "xdg".into(),
         symlinks: BTreeMap::new(),
         config_files: BTreeMap::new(),
+        stale_text: BTreeMap::new(),
     };
     // ---- the source --------------------------------------------------------------------------
     let stem = STEMS[r.usize(STEMS.len())].to_string();
@@ -1395,6 +1411,7 @@ fn account(acc: &mut Acc, sc: &Scenario, out: &RunOut, reference: &Reference, ro
     stats.probe("both_o_and_e_given", parsed.output.is_some() && parsed.eeprom.is_some());
     stats.probe("o_given_e_defaulted_with_eeprom_data", parsed.output.is_some() && parsed.eeprom.is_none() && elen > 0);
     stats.probe("source_in_subdirectory_with_other_cwd", !sc.cwd.is_empty());
+    stats.probe("stale_output_is_a_nearly_right_hex_file", !sc.stale_text.is_empty());
     stats.probe("source_found_only_in_the_standard_include_directory", sc.source_class == "in-standard-includes" && matches!(reference, Reference::Built { .. }));
     stats.probe("source_name_that_is_not_utf8", parsed.source.as_ref().map(|o| has_raw(crate::incmodel::basename(o))).unwrap_or(false));
     stats.probe("directory_or_output_names_that_are_not_utf8", sc.argv.iter().any(|a| has_raw(a)) || has_raw(&sc.cwd));
@@ -1488,6 +1505,29 @@ pub fn worker(cfg: &WorkerCfg, emit: &mut dyn FnMut(Violation)) -> Stats {
             break;
         }
         let reference = reference(&env.root, &sc, &env.xdg, &env.ctl);
+        // one stale output in three is not junk but what an earlier run of some version of the
+        // tool left: the right records, all of them or all but the last few
+        if let Reference::Built { code, eeprom } = &reference {
+            let keys: Vec<String> = sc.stale.keys().filter(|k| k.ends_with(".hex") || k.ends_with(".eep")).cloned().collect();
+            for k in keys {
+                if !r.chance(1, 3) {
+                    continue;
+                }
+                let img = if k.contains("eep") { eeprom } else { code };
+                if img.is_empty() || img.len() > 6000 {
+                    continue;
+                }
+                let full = crate::hexread::encode(img);
+                let lines: Vec<&str> = full.split_inclusive('\n').collect();
+                let text = match r.below(3) {
+                    0 => full.clone(),
+                    1 => lines[..lines.len() - 1].concat(),
+                    _ => lines[..r.usize(lines.len())].concat(),
+                };
+                sc.stale.remove(&k);
+                sc.stale_text.insert(k, text);
+            }
+        }
         let needs_profile = matches!(sc.config.as_str(), "enum" | "pair" | "fsize");
         let mut budget = 1_000_000u64;
         let mut digest = 0u64;
@@ -1670,6 +1710,11 @@ pub fn shrink(scv: &Value) -> Vec<Value> {
     for k in sc.stale.keys() {
         let mut s = sc.clone();
         s.stale.remove(k);
+        push(s);
+    }
+    for k in sc.stale_text.keys() {
+        let mut s = sc.clone();
+        s.stale_text.remove(k);
         push(s);
     }
     // drop options
